@@ -89,9 +89,20 @@ def check(case, rec):
   for w in range(n):
     mjd = mujoco.MjData(mjm)
     H.set_mjd(mjd, states[w])
-    mujoco.mj_forward(mjm, mjd)
+    try:
+      mujoco.mj_forward(mjm, mjd)
+    except mujoco.FatalError:
+      # MuJoCo itself aborts on explicit pairs between two static bodies: not a comparable input
+      rec.rejected += 1
+      continue
     rec.ev()
     cw, cm = H.contacts(d, w), H.mj_contacts(mjd)
+    if any(int(c.exclude) == 3 for c in mjd.contact):
+      # explicit pair between two bodies without degrees of freedom: MuJoCo keeps the contact but emits no rows (exclude=3)
+      if ew_nefc(d, w) != mjd.nefc:
+        rec.violation("contact between two immobile bodies (explicit pair) gets constraint rows with zero Jacobian; MuJoCo excludes it (contact.exclude=3)", sig="rows:no-dof-contact", world=w)
+      rec.cls("skipped:no-dof-contact")
+      continue
     # contact sets must match (C04's business); otherwise rows are not comparable
     pairs, ua, ub = H.match_contacts(cw, cm)
     bad = bool(ua or ub) or any(np.linalg.norm(cw["pos"][a] - cm["pos"][b]) > 1e-3 or abs(cw["dist"][a] - cm["dist"][b]) > 1e-4 or np.max(np.abs(np.asarray(cw["frame"][a][0], dtype=np.float64) - cm["frame"][b][0])) > 1e-4 for a, b in pairs)
@@ -123,6 +134,14 @@ def check(case, rec):
       if any(limw.count(x) < 2 for x in both):
         rec.violation(f"limit with both sides inside the margin gets one row instead of MuJoCo's two: {both}", sig="limit:both-sides", world=w)
         rec.cls("skipped:limit-both-sides")
+        continue
+    if int(d.ne.numpy()[w]) > mjd.ne:
+      # equality between two bodies without degrees of freedom (e.g. mocap body welded to the world): MuJoCo emits no rows
+      eqrows = np.nonzero(ew["type"] == 0)[0]
+      zero = [i for i in eqrows if np.max(np.abs(ew["J"][i])) < 1e-5]
+      if len(zero) == int(d.ne.numpy()[w]) - mjd.ne:
+        rec.violation("equality between immobile bodies gets rows with an all-zero Jacobian; MuJoCo emits none", sig="rows:no-dof-equality", world=w)
+        rec.cls("skipped:no-dof-equality")
         continue
     check_equal(rec, "ne", int(d.ne.numpy()[w]), mjd.ne, sig="count:ne", **ctx)
     check_equal(rec, "nf", int(d.nf.numpy()[w]), mjd.nf, sig="count:nf", **ctx)
@@ -193,6 +212,10 @@ def check(case, rec):
   rec.cls(f"cone:{case['opt']['cone']}", f"sparse:{bool(m.is_sparse)}", f"solver:{case['opt']['solver']}")
   if len(kinds) >= 2:
     rec.nt()
+
+
+def ew_nefc(d, w):
+  return int(d.nefc.numpy()[w])
 
 
 def _limit_boundary(mjm, mjd, band=2e-5):
